@@ -13,7 +13,7 @@ pub fn prop() -> Prop {
   Prop {
     id: "C15",
     rule: "case = (source: hot Subject, hot create-handle, BehaviorSubject, never, or a cold `create` script that terminates at subscription; 0..2 pass-through operators, finalize (local or finalize_threads; thread-safe build), 0..2 further operators (pass-through, or take/first, or observe_on/delay on the virtual scheduler), optionally a second finalize; history of <= 8 steps: an item prefix, then complete / error / unsubscribe (or guard drop) in any order, each possibly repeated through cloned handles, more items in between). \
-           Oracle: the callback counter of every finalize is 0 until the first trigger (source completion, source error, unsubscription), equals the number of finalize operators when the triggering step returns, and never changes afterwards; when the trigger is a terminal and nothing asynchronous sits downstream, the subscriber had received that terminal before the callback ran. Non-trivial: >= 2 triggers in the history. Distinct by hash(case). Part `resubscribe`: a pipeline with 1..2 finalize operators over a cold source or a virtual-clock interval is built once; 2..3 clones are subscribed at generated (overlapping) times and each is unsubscribed 12 ticks after its start: the callbacks must have run exactly (number of finalize operators x number of subscriptions) times. Part `threads` (engine T): SubjectThreads -> finalize_threads -> probe; one thread sends 0..2 items and a terminal (complete or error, possibly twice through clones), another thread unsubscribes (possibly after an item of its own); schedule = <= 3 preemptions at lock-acquisition granularity (plus a yield inside the callback): after both threads have finished the callback has run exactly once, under every schedule. Part `short` enumerates every trigger order of length <= 5 for the plain `hot.finalize()` pipeline.",
+           Oracle: the callback counter of every finalize is 0 until the first trigger (source completion, source error, unsubscription), equals the number of finalize operators when the triggering step returns, and never changes afterwards; when the trigger is a terminal and nothing asynchronous sits downstream, the subscriber had received that terminal before the callback ran. Non-trivial: >= 2 triggers in the history. Distinct by hash(case). Part `resubscribe`: a pipeline with 1..2 finalize operators over a cold source or a virtual-clock interval is built once; 2..3 clones are subscribed at generated (overlapping) times and each is unsubscribed 12 ticks after its start: the callbacks must have run exactly (number of finalize operators x number of subscriptions) times. Part `threads` (engine T): SubjectThreads -> finalize_threads -> probe; one thread sends 0..2 items and a terminal (complete or error, possibly twice through clones), another thread unsubscribes (possibly after an item of its own); schedule = <= 3 preemptions at lock-acquisition granularity (plus a yield inside the callback): after both threads have finished the callback has run exactly once, under every schedule; when the subscriber received the terminal the callback has run by the time the terminating call returns; the callback never runs while a notification is still being delivered to the subscriber on the other thread. Part `short` enumerates every trigger order of length <= 5 for the plain `hot.finalize()` pipeline.",
     assumptions: &[
       "with take/first downstream of finalize only 'at most once, not before a trigger, exactly once by the time the source has terminated or the subscription was unsubscribed' is checked",
       "threads part: sequentially consistent interleavings at lock-acquisition granularity",
@@ -341,31 +341,46 @@ fn run_threads(c: &mut dyn Choices, ctx: &Ctx) -> Outcome {
   let runs = Arc::new(AtomicUsize::new(0));
   let subject = SubjectThreads::<i64, u8>::default();
   let r2 = runs.clone();
-  struct Quiet;
+  // marks in global order: "enter"/"leave" of a delivery to the subscriber, "terminal-delivered", "finalize"
+  let marks: Arc<Mutex<Vec<&'static str>>> = Arc::new(Mutex::new(vec![]));
+  struct Quiet(Arc<Mutex<Vec<&'static str>>>);
+  impl Quiet {
+    fn cb(&self, terminal: bool) {
+      self.0.lock().unwrap().push("enter");
+      crate::engine_t::explicit_yield();
+      if terminal {
+        self.0.lock().unwrap().push("terminal-delivered");
+      }
+      self.0.lock().unwrap().push("leave");
+    }
+  }
   impl Observer<i64, u8> for Quiet {
     fn next(&mut self, _: i64) {
-      crate::engine_t::explicit_yield();
+      self.cb(false)
     }
     fn error(self, _: u8) {
-      crate::engine_t::explicit_yield();
+      self.cb(true)
     }
     fn complete(self) {
-      crate::engine_t::explicit_yield();
+      self.cb(true)
     }
     fn is_finished(&self) -> bool {
       false
     }
   }
+  let m2 = marks.clone();
   let sub = subject
     .clone()
     .finalize_threads(move || {
       r2.fetch_add(1, Ordering::SeqCst);
+      m2.lock().unwrap().push("finalize");
       crate::engine_t::explicit_yield();
     })
-    .actual_subscribe(Quiet);
+    .actual_subscribe(Quiet(marks.clone()));
   let sub = Arc::new(Mutex::new(Some(sub)));
   let a: Box<dyn FnOnce() + Send> = {
     let mut s = subject.clone();
+    let (marks, runs) = (marks.clone(), runs.clone());
     Box::new(move || {
       for i in 0..items {
         s.next(i as i64);
@@ -376,6 +391,11 @@ fn run_threads(c: &mut dyn Choices, ctx: &Ctx) -> Outcome {
         t.error(5)
       } else {
         t.complete()
+      }
+      // the terminating call has returned: if the subscriber received the terminal, the completion was the
+      // first of the triggering events and the callback must have run by now
+      if marks.lock().unwrap().contains(&"terminal-delivered") && runs.load(Ordering::SeqCst) == 0 {
+        marks.lock().unwrap().push("terminal-call-returned-without-finalize");
       }
       if twice {
         s.clone().complete();
@@ -402,8 +422,24 @@ fn run_threads(c: &mut dyn Choices, ctx: &Ctx) -> Outcome {
   let n = runs.load(Ordering::SeqCst);
   let verdict = match &stats.verdict {
     TV::Completed => {
+      let mk = marks.lock().unwrap().clone();
+      // finalize between an "enter" and its "leave" = it ran while a notification was being delivered to the subscriber
+      let mut depth = 0;
+      let mut during = false;
+      for m in &mk {
+        match *m {
+          "enter" => depth += 1,
+          "leave" => depth -= 1,
+          "finalize" if depth > 0 => during = true,
+          _ => {}
+        }
+      }
       if n != 1 {
         Verdict::Violation { sig: format!("threads:{}:finalize_threads", if n == 0 { "not-run" } else { "ran-twice" }), detail: format!("a terminating thread raced an unsubscribing thread: the finalize callback ran {n} time(s)") }
+      } else if mk.contains(&"terminal-call-returned-without-finalize") {
+        Verdict::Violation { sig: "threads:late:finalize_threads".into(), detail: format!("the subscriber received the terminal and the terminating call returned, but the finalize callback had not run yet: {mk:?}") }
+      } else if during {
+        Verdict::Violation { sig: "threads:during-delivery:finalize_threads".into(), detail: format!("the finalize callback ran while a notification was still being delivered to the subscriber on another thread: {mk:?}") }
       } else {
         Verdict::Ok
       }
